@@ -14,6 +14,17 @@ pub const NS: u128 = 1_000_000_000;
 pub const MAX_SECS: u64 = 253_402_300_799;
 
 pub fn gen_len(t: &mut Tape, bias: u32) -> u64 {
+    // One run in eight takes its length from (or near a multiple of) the source dictionary.
+    if t.chance(1, 8) {
+        let k = t.draw(1 << 16);
+        if let Some(v) = crate::dict::pick_in(k, if bias == 1 { 300 } else { 0 }, u64::MAX) {
+            return match t.draw(4) {
+                0 => v.saturating_mul(2 + t.draw(8) as u64),
+                1 => v.saturating_add(t.draw(100) as u64),
+                _ => v,
+            };
+        }
+    }
     // bias 0: anything; 1: large enough for multipart; 2: small (cheap, many chunkings)
     let class = match bias {
         1 => 3 + t.draw(7),
@@ -190,6 +201,12 @@ pub fn resolve(s: &Spec, l: u64) -> Res {
 }
 
 pub fn gen_pos(t: &mut Tape, l: u64) -> u64 {
+    if t.chance(1, 10) {
+        let k = t.draw(1 << 16);
+        if let Some(v) = crate::dict::pick_in(k, 0, u64::MAX) {
+            return v;
+        }
+    }
     match t.draw(14) {
         0 => 0,
         1 => 1,
@@ -215,7 +232,7 @@ pub fn gen_pos(t: &mut Tape, l: u64) -> u64 {
 /// One spec. `tame` keeps it unambiguous and (when the entity is non-empty) satisfiable and small.
 pub fn gen_spec(t: &mut Tape, l: u64, tame: bool) -> Spec {
     if tame && l > 0 {
-        let small = 1 + t.draw(40) as u64;
+        let small = if t.chance(1, 8) { crate::dict::pick_in(t.draw(1 << 16), 1, 5000).unwrap_or(7) } else { 1 + t.draw(40) as u64 };
         return match t.draw(4) {
             0 => {
                 let a = t.below(l);
